@@ -301,7 +301,7 @@ def run(chk):
                     "simulation scheduler harness/sim.py (one thread at a time; timed waits fire by scheduler choice)",
                     "message bytes are abstracted to (number, length) in the model", "SCTP transport variants are not exercised"]
     quick = chk.tier == "quick"
-    explore(chk, rng, 60 if quick else 2500, "sweep")
+    explore(chk, rng, 150 if quick else 2500, "sweep")
 
     def search():
         explore(chk, rng, 150, "search")
